@@ -90,3 +90,41 @@ async fn f8_suffix_range_on_empty_file_is_416() {
     let _ = std::fs::remove_file(&path);
     assert_eq!(res.status(), actix_web::http::StatusCode::RANGE_NOT_SATISFIABLE);
 }
+
+/// F11 (C15, FIXED): the chunk cut falls right after the "--" of a delimiter and the field is polled
+/// before the next chunk arrives: "\r\n--" used to be delivered as content and the next part was merged
+/// into the field. Found by the solver (harness c15_read_stream_boundary1_b4).
+#[actix_rt::test]
+async fn f11_cut_after_delimiter_dashes_does_not_merge_fields() {
+    use actix_web::{error::PayloadError, http::header::{self, HeaderMap, HeaderValue}};
+    use futures_util::stream;
+    use std::task::Poll;
+    let part1 = Bytes::from_static(b"--xyz\r\ncontent-disposition: form-data; name=\"a\"\r\n\r\nfirst\r\n--");
+    let part2 = Bytes::from_static(b"xyz\r\ncontent-disposition: form-data; name=\"b\"\r\n\r\nsecond\r\n--xyz--\r\n");
+    // chunk 1, then two Pendings (the field is polled in between), then chunk 2
+    let mut step = 0;
+    let body = stream::poll_fn(move |cx| {
+        step += 1;
+        match step {
+            1 => Poll::Ready(Some(Ok::<_, PayloadError>(part1.clone()))),
+            2 | 3 => {
+                cx.waker().wake_by_ref();
+                Poll::Pending
+            }
+            4 => Poll::Ready(Some(Ok(part2.clone()))),
+            _ => Poll::Ready(None),
+        }
+    });
+    let mut headers = HeaderMap::new();
+    headers.insert(header::CONTENT_TYPE, HeaderValue::from_static("multipart/form-data; boundary=xyz"));
+    let mut mp = actix_multipart::Multipart::new(&headers, body);
+    let mut a = mp.next().await.unwrap().unwrap();
+    let mut content = Vec::new();
+    while let Some(chunk) = a.next().await {
+        content.extend_from_slice(&chunk.unwrap());
+    }
+    assert_eq!(content, b"first", "field a must end at the delimiter");
+    drop(a);
+    let b = mp.next().await.unwrap().unwrap();
+    assert_eq!(b.name(), Some("b"));
+}
